@@ -49,6 +49,13 @@ def include_flags(extra_first=()):
 
 # TUs that are not part of any claim and are never compiled (python bridge needs nanobind / Python.h)
 EXCLUDE_PREFIXES = ("src/hgraph/python/",)
+# Outside every claim and not digestible by clang 14 / libstdc++ 12 (frontend crash on the operator
+# template layer, <chrono> tzdb / from_stream): never attempted, so a header edit does not pay for
+# seventeen compiler crashes.  Their symbols become abort-stubs in native links.
+EXCLUDE_FILES = {
+    "src/hgraph/types/temporal.cpp", "src/hgraph/types/time_zone_provider.cpp", "src/hgraph/types/value/json_codec.cpp",
+}
+STDLIB_OPERATOR_TUS_USED = {"higher_order_impl.cpp"}
 
 
 def sha(b):
@@ -108,8 +115,11 @@ def repo_tus():
         for fn in files:
             if fn.endswith(".cpp"):
                 rel = os.path.relpath(os.path.join(root, fn), REPO)
-                if not rel.startswith(EXCLUDE_PREFIXES):
-                    out.append(rel)
+                if rel.startswith(EXCLUDE_PREFIXES) or rel in EXCLUDE_FILES:
+                    continue
+                if rel.startswith("src/hgraph/lib/std/operators/") and fn not in STDLIB_OPERATOR_TUS_USED:
+                    continue
+                out.append(rel)
     return sorted(out)
 
 
@@ -170,6 +180,10 @@ def compile_one(src_abs, key_name, flags, inc, index, kind="bc", force_src_text=
                 return dict(ok=True, bc=os.path.join(OBJ, k + ".bc"), cached=True, key=k, name=key_name, compat=ent.get("compat", []))
             if not ent.get("ok"):
                 return dict(ok=False, log=ent.get("log", ""), cached=True, key=k, name=key_name)
+        elif os.path.exists(os.path.join(OBJ, k + ".bc")):
+            # same dependency contents as an earlier build (e.g. an edit that was reverted)
+            index[key_name] = dict(deps=ent["deps"], key=k, ok=True, compat=ent.get("compat", []))
+            return dict(ok=True, bc=os.path.join(OBJ, k + ".bc"), cached=True, key=k, name=key_name, compat=ent.get("compat", []))
     tmpd = tempfile.mkdtemp(prefix="verifcc_")
     try:
         compat = []
